@@ -3,10 +3,10 @@ package main
 // C14: alpha passes through exactly; linearised pixels stay validly premultiplied.
 
 import (
-	"image/draw"
-	"image"
 	"fmt"
+	"image"
 	"image/color"
+	"image/draw"
 	"math"
 	"os"
 	"strings"
